@@ -202,9 +202,9 @@ def run(tier="quick", seed=0, arg=None):
                 if not OM.variables(o) <= set(names):
                     fail("C12.only.vars", {"marker": tm, "names": names}, str(o), "mentions only the given names")
                 if any(x and not y for x, y in zip(vm, vo)):
-                    fail("C12.only.implied", {"marker": tm, "names": names}, str(o), "implied by the marker")
+                    fail("C12.only.implied", {"marker": tm, "names": names, "env": first_env(vm, tuple(x and y for x, y in zip(vm, vo)))}, str(o), "implied by the marker")
                 if set(vs) <= set(names) and vo != vm:
-                    fail("C12.only.same", {"marker": tm, "names": names}, str(o), "same meaning")
+                    fail("C12.only.same", {"marker": tm, "names": names, "env": first_env(vo, vm)}, str(o), "same meaning")
                 if OM.nf(o):
                     fail("C15.nf", {"marker": tm, "op": "only", "names": names}, {"result": str(o), "why": OM.nf(o)}, "normal form")
             for name in (vs[:2] + ["extra", "os_name"] + [ALL_VARIABLES[(i + j) % len(ALL_VARIABLES)] for j in range(3)]):
@@ -221,7 +221,7 @@ def run(tier="quick", seed=0, arg=None):
                 if name in OM.variables(x):
                     fail("C12.exclude.vars", {"marker": tm, "name": name}, str(x), "does not mention the removed variable")
                 if name not in vs and vec(x) != vm:
-                    fail("C12.exclude.same", {"marker": tm, "name": name}, str(x), "same meaning")
+                    fail("C12.exclude.same", {"marker": tm, "name": name, "env": first_env(vec(x), vm)}, str(x), "same meaning")
                 if OM.nf(x):
                     fail("C15.nf", {"marker": tm, "op": "exclude", "name": name}, {"result": str(x), "why": OM.nf(x)}, "normal form")
                 if not (x.is_any() or x.is_empty()):
